@@ -74,6 +74,19 @@ class Session:
                if c not in self.finished]
         return [A("S"), ids("rq"), ids("rq:delayed"), ids("rq:dead"), un, loc, sorted(m.properties.message_id for m in self.srv.dropped)]
 
+    def payloads_of(self, mid: str) -> list:
+        """(place, payload) of every copy of the message at the server"""
+        import json as _json
+        out = []
+        for qn, q in self.srv.queues.items():
+            for m in q.ready:
+                if m.properties.message_id == mid:
+                    out.append([QN.get(qn, qn), _json.loads(m.body)["payload"]])
+        for (_cid, _t), (qn, m) in self.srv.unacked.items():
+            if m.properties.message_id == mid:
+                out.append(["held:" + QN.get(qn, qn), _json.loads(m.body)["payload"]])
+        return out
+
     def rec(self, op: dict, reqs: list, obs) -> None:
         for r in reqs[:-1]:
             self.ops.append({"op": "(step)"})
@@ -160,7 +173,8 @@ class Session:
             millis = None if due is None else (int(exp) if exp is not None else 0)
             await self.settle()
             self.msgs[mid].update(due=None if due is None else to_us(due), params=params, payload=payload, enq_at=now)
-            self.rec({"op": "requeue", "id": mid, "params": pd, "now": now, "millis": millis, "due": self.msgs[mid]["due"]},
+            self.rec({"op": "requeue", "id": mid, "params": pd, "now": now, "millis": millis, "due": self.msgs[mid]["due"],
+                      "new_payload": payload, "found_after": self.payloads_of(mid)},
                      [[A("rabbit.ack"), mid], [A("rabbit.publish"), amsg_sx(key, payload, params), NONE if millis is None else millis, now],
                       [A("rabbit.settle"), CLOCK.us]], self.snapshot())
             return
@@ -470,6 +484,14 @@ def predicates(s: Session, res: Result, label: str, only: str | None) -> None:
                                    "(same priority)", case={"returned": x, "rejected_at_op": i, "later_message": o2["id"]},
                             observed={"returned_handed_over_at": dx, "later_handed_over_at": dy})
                         break
+    # requeue replaces the held message by its new payload: once it has returned, what the server has under that id is the new one
+    for op in ops:
+        if op.get("op") == "requeue":
+            stale = [f for f in op["found_after"] if f[1] != op["new_payload"]]
+            if stale or len(op["found_after"]) != 1:
+                bad("C01", "after requeue returned, the message at the server is not (only) the new payload: the held one was not "
+                           "replaced", case={"id": op["id"]}, observed=op["found_after"], expected=[["<one place>", op["new_payload"]]])
+                break
     # exactly one place
     snap = s.snapshot()
     for mid in s.msgs:
